@@ -27,7 +27,7 @@ OPS = ([['first'], ['last']] + [['take', n] for n in (0, 1, 2, 5)] + [['distinct
 PLAIN_OK = {'first', 'last', 'take', 'duc', 'batch'}
 
 
-def cases(tier, rng):
+def _cases(tier, rng):
     yield {'kind': 'mux', 'term': [['batch', 3]], 'items': [0, 1, 2]}
     yield {'kind': 'mux', 'term': [['batch', 1]], 'items': [0, 1, 2]}
     yield {'kind': 'mux', 'term': [['batch', 3]], 'items': []}
@@ -108,7 +108,7 @@ def compare(case, r, m):   # noqa: F811
     return _base_cmp(case, r, m)
 
 
-def oracle(case, r):
+def _oracle(case, r):
     if 'harness_exc' in r:
         return 'real code raised: ' + r['harness_exc']
     if case['kind'] == 'sort':
@@ -166,3 +166,14 @@ def violation_class(case, text):
     if case['kind'] == 'sort':
         return 'sort'
     return [s[0] for s in case['term']][-1]
+
+
+def cases(tier, rng):
+    """every case of `_cases`, and for a fraction of the mux/plain ones the same case run as the SECOND subscription of
+    its pipeline object (after an earlier subscription that completed, failed or was disposed)"""
+    pr = rng.sub('resubscription')
+    return muxprop.with_preludes(_cases(tier, rng), pr)
+
+
+def oracle(case, r):
+    return muxprop.prelude_violation(case, r) or _oracle(case, r)
